@@ -128,11 +128,17 @@ def image_for(t, gen, rng, pool, allow_literal):
     """a shape-compatible image for terminal t"""
     sh = t.ufl_shape
     g = gen.g
-    lit = lambda: ufl.as_ufl(rng.choice([2, -1, 0.5, 3.0, 1.5]))  # noqa: E731
+    lit = lambda: ufl.as_ufl(rng.choice([2, -1, 0.5, 3.0, 1.5, 0, 0.0]))  # noqa: E731
 
     def literal(shape):
+        # zero-valued images of every form (0, 0.0, zero(shape), list tensor of zeros) are ordinary images
+        r0 = rng.random()
+        if r0 < 0.12:
+            return ufl.zero(*shape) if shape else ufl.zero()
         if shape == ():
             return lit()
+        if r0 < 0.24:
+            return ufl.as_tensor([(ufl.as_ufl(0) if len(shape) == 1 else literal(shape[1:])) for _ in range(shape[0])])
         return ufl.as_tensor([literal(shape[1:]) for _ in range(shape[0])])
 
     if isinstance(t, C.Constant):
@@ -258,6 +264,11 @@ def fixed_cases(rng):
         ("conditional", ufl.conditional(ufl.lt(f, h), f, h), {f: h, h: w}),
         ("power_exponent", f ** h, {h: 2}), ("power_exponent_f", f ** h, {h: 0.5}), ("math", ufl.exp(f) / ufl.sqrt(h), {f: h, h: f * f}),
         ("det_inv", ufl.det(T) * ufl.tr(T), {T: ufl.grad(v)}),
+        ("zero_int", f * h + f, {f: 0}), ("zero_float", f * h + ufl.sin(f), {f: 0.0}), ("zero_obj", f + h * w, {f: ufl.zero()}),
+        ("zero_vec", ufl.dot(v, u) + v[0], {v: ufl.zero(2)}), ("zero_list", ufl.dot(v, u) + v[1] * f, {v: ufl.as_vector([0, 0])}),
+        ("zero_restricted", f("+") * h("-") + f("-"), {f: 0}), ("zero_under_grad", ufl.grad(f * h) + ufl.grad(f), {f: 0.0}),
+        ("zero_in_variable", ufl.variable(f + h) * f, {f: 0}), ("zero_constant", c * f + c, {c: 0}),
+        ("zero_argument", arg * f + arg, {arg: ufl.zero()}), ("zero_and_other", f * h + w, {f: 0, h: w, w: 0.0}),
         ("twin_object", f + ufl.Coefficient(V, count=f.count()), {f: h}),
         ("key_twin", f * h, {ufl.Coefficient(V, count=f.count()): w}),
     ]
